@@ -153,7 +153,7 @@ func runDetChart(res *core.Result, cs *chartSpec, rng *rand.Rand, root string, i
 		j.compare("repeat", j.again(), j.again)
 		res.Evals++
 	}
-	// (1b) engine.Render repeatedly on ONE loaded chart object with ONE values object
+	// (1b) engine.Render repeatedly on ONE loaded chart object (values tree copied per call: templates may `set`)
 	core.Guard(res, "engine.Render of a generated chart", func() {
 		ch, top, err := prepareEngine(cs)
 		if err != nil {
@@ -327,12 +327,12 @@ func runConcChart(res *core.Result, cs *chartSpec, idx int, can *canaries, verbo
 		go func(g int) {
 			defer wg.Done()
 			t := top
-			if g%2 == 1 { // odd goroutines get their own values object, even ones share one
+			if g%2 == 1 { // odd goroutines compute their own render values from a separately loaded copy
 				if _, own, err := prepareEngine(cs); err == nil {
 					t = own
 				}
 			}
-			outs[g] = engineRender(ch, t, false)
+			outs[g] = engineRender(ch, t, false) // the chart object is shared, the values tree is copied per call
 		}(g)
 	}
 	wg.Wait()
